@@ -70,6 +70,17 @@ class World:
         return isinstance(k, Aff) and B.is_zero(k - self.value)
 
 
+class IntLike(Aff):
+    """The caller's argument: any object that is an int -- a plain one, a bool, a member of another IntEnum, an instance
+    of an int subclass with its own __str__ / __format__.  Arithmetic and int() give the plain number (a plain Aff);
+    only the object itself carries this class, so a name built from it directly is not known to be the decimal number."""
+    __slots__ = ()
+
+    @staticmethod
+    def sym(s):
+        return IntLike(0, {s: 1})
+
+
 class MemberTok:
     """The declared member for `value` (exists only on paths where value is declared)."""
 
@@ -279,7 +290,7 @@ def run(rep, index):
         w = World(shared)
         w.meta_methods = {f.name: FuncRef(m, f, ClassRef(m, cls)) for f in index.methods(cls) if f.name != "__call__" and not f.name.startswith("__")}
         c = EnumCls(w)
-        w.value = B.fresh("value", None, None)
+        w.value = IntLike.sym(B.Sym("value", None, None))
 
         def lookup(ev, a, kw, n):
             w.lookups.append((list(a), dict(kw), getattr(n, "lineno", 0)))
@@ -389,6 +400,10 @@ def run(rep, index):
                 vals = [x for k, x in nm.parts if k == "value"]
                 ok_name = lits == "Unrecognized()" and len(vals) == 1 and w.is_value(vals[0]) \
                     and [k for k, _ in nm.parts] == ["text", "value", "text"]
+                if ok_name and isinstance(vals[0], IntLike):
+                    ok_name = False
+                    nm = "Unrecognized(<the argument formatted by its own __format__/__str__>): for True, a member of another "\
+                         "IntEnum or any int subclass with its own text form that is not the decimal ordinal"
             rep.ob("C14.R4 fallback-named-Unrecognized(n)", inst, ok_name, "_name_ = %s" % (_show(nm),), loc=loc)
             rep.ob("C14.R4 fallback-keeps-the-value", inst, w.is_value(res.attrs.get("_value_")), "_value_ = %s" % (_show(res.attrs.get("_value_")),), loc=loc)
     rep.count("interpreted paths", n_paths)
